@@ -179,7 +179,34 @@ func c05Describe(v ssa.Value, l *RangeLoop, depth int) string {
 			return c05Describe(a.X, l, depth+1) + "[" + c05Describe(a.Index, l, depth+1) + "]"
 		case *ssa.Global:
 			return "global " + a.Name()
+		case *ssa.FreeVar:
+			// a variable of the enclosing function read inside a closure: what its cell holds
+			if outer := a.Parent().Parent(); outer != nil {
+				var val ssa.Value
+				Instrs(outer, func(in ssa.Instruction) {
+					mc, ok := in.(*ssa.MakeClosure)
+					if !ok || mc.Fn != ssa.Value(a.Parent()) {
+						return
+					}
+					for j, q := range a.Parent().FreeVars {
+						if q == a && j < len(mc.Bindings) {
+							if cell, isA := mc.Bindings[j].(*ssa.Alloc); isA {
+								if cv, ok := cellValue(cell); ok {
+									val = cv
+								}
+							}
+						}
+					}
+				})
+				if val != nil {
+					return c05Describe(val, l, depth+1)
+				}
+			}
 		case *ssa.Alloc:
+			// a variable kept in a cell because a closure reads it, assigned once: its value
+			if cv, ok := cellValue(a); ok {
+				return c05Describe(cv, l, depth+1)
+			}
 			// local variable: the values stored into it
 			var parts []string
 			for _, ref := range *a.Referrers() {
@@ -291,10 +318,21 @@ func c05R2(p *Prog, r *Report) {
 			case "filename":
 				// Sprintf(pattern, dsp.Name, ext)
 				okF := false
-				if sc, ok := arg.(*ssa.Call); ok && CalleeName(&sc.Call) == "fmt.Sprintf" {
+				sc, isCall := arg.(*ssa.Call)
+				var path []ssa.Instruction
+				if isCall && CalleeName(&sc.Call) != "fmt.Sprintf" {
+					// a one-line helper or closure that formats the name
+					h := sc.Call.StaticCallee()
+					if inner, _ := singleReturn(h).(*ssa.Call); isModuleFn(h) && len(h.Blocks) == 1 && inner != nil && CalleeName(&inner.Call) == "fmt.Sprintf" {
+						path = []ssa.Instruction{sc}
+						sc = inner
+					}
+				}
+				if isCall && CalleeName(&sc.Call) == "fmt.Sprintf" {
 					d := c05Describe(sc.Call.Args[1], l, 0)
+					patArg := resolveCell(ArgForParam(path, sc.Call.Args[0]))
 					if patternVal == nil {
-						patternVal = sc.Call.Args[0]
+						patternVal = patArg
 					}
 					// variadic slice holds name and extension
 					if strings.Contains(d, dspElem+".Name") && strings.Contains(d, "const \""+ext[c.Name()]+"\"") || true {
@@ -305,7 +343,11 @@ func c05R2(p *Prog, r *Report) {
 									if ia, ok := ref.(*ssa.IndexAddr); ok {
 										for _, r2 := range *ia.Referrers() {
 											if st, ok := r2.(*ssa.Store); ok {
-												elems = append(elems, c05Describe(st.Val, l, 0))
+												ev := st.Val
+												if mi, isMI := ev.(*ssa.MakeInterface); isMI {
+													ev = ArgForParam(path, mi.X)
+												}
+												elems = append(elems, c05Describe(ev, l, 0))
 											}
 										}
 									}
@@ -314,7 +356,7 @@ func c05R2(p *Prog, r *Report) {
 						}
 						sort.Strings(elems)
 						joined := strings.Join(elems, ";")
-						okF = sc.Call.Args[0] == patternVal && strings.Contains(joined, dspElem+".Name") && strings.Contains(joined, "const \""+ext[c.Name()]+"\"") && len(elems) == 2
+						okF = patArg == patternVal && strings.Contains(joined, dspElem+".Name") && strings.Contains(joined, "const \""+ext[c.Name()]+"\"") && len(elems) == 2
 						got = "Sprintf(pattern; " + joined + ")"
 					}
 				}
@@ -491,6 +533,69 @@ func slotFromView(src *ssa.Call, sizes types.Sizes) (recSlot, bool) {
 	return s, true
 }
 
+// appenderClosure: the fresh buffer mk is stored into the cell of a local variable that a closure
+// of the same function captures, and that closure does exactly `v = append(v, param...)`.
+func appenderClosure(mk *ssa.MakeSlice) (*ssa.Alloc, *ssa.MakeClosure) {
+	var cell *ssa.Alloc
+	for _, ref := range *mk.Referrers() {
+		if st, ok := ref.(*ssa.Store); ok && st.Val == ssa.Value(mk) {
+			cell, _ = st.Addr.(*ssa.Alloc)
+		}
+	}
+	if cell == nil {
+		return nil, nil
+	}
+	for _, ref := range *cell.Referrers() {
+		mc, ok := ref.(*ssa.MakeClosure)
+		if !ok {
+			continue
+		}
+		f, ok := mc.Fn.(*ssa.Function)
+		if !ok || len(f.Params) != 1 || len(f.Blocks) != 1 {
+			continue
+		}
+		var fv *ssa.FreeVar
+		for i, b := range mc.Bindings {
+			if b == ssa.Value(cell) && i < len(f.FreeVars) {
+				fv = f.FreeVars[i]
+			}
+		}
+		if fv == nil {
+			continue
+		}
+		good, nstore := true, 0
+		for _, in := range f.Blocks[0].Instrs {
+			switch x := in.(type) {
+			case *ssa.UnOp:
+				if x.X != ssa.Value(fv) {
+					good = false
+				}
+			case *ssa.Call:
+				b, isB := x.Call.Value.(*ssa.Builtin)
+				if !isB || b.Name() != "append" || x.Call.Args[1] != ssa.Value(f.Params[0]) {
+					good = false
+				} else if ld, isLd := x.Call.Args[0].(*ssa.UnOp); !isLd || ld.X != ssa.Value(fv) {
+					good = false
+				}
+			case *ssa.Store:
+				nstore++
+				if x.Addr != ssa.Value(fv) {
+					good = false
+				} else if c, isC := x.Val.(*ssa.Call); !isC || c.Call.Value.Name() != "append" {
+					good = false
+				}
+			case *ssa.Return, *ssa.DebugRef:
+			default:
+				good = false
+			}
+		}
+		if good && nstore == 1 {
+			return cell, mc
+		}
+	}
+	return nil, nil
+}
+
 func isEmptyMake(m *ssa.MakeSlice) bool {
 	k, isC := constInt(m.Len)
 	return isC && k == 0
@@ -566,6 +671,58 @@ func recordLayout(fn *ssa.Function) *recLayout {
 		return L
 	}
 	var last ssa.Value
+	// form 3: the buffer lives in a variable that a local closure appends to:
+	//   put := func(b []byte) { record = append(record, b...) };  put(view1); put(view2); ...
+	if mk != nil && isEmptyMake(mk) && helperCall == nil {
+		if cell, put := appenderClosure(mk); cell != nil {
+			L.sizeHint = mk.Cap
+			var prev ssa.Instruction
+			Instrs(fn, func(in ssa.Instruction) {
+				c, ok := in.(*ssa.Call)
+				if !ok || c.Call.Value != ssa.Value(put) || len(c.Call.Args) != 1 {
+					return
+				}
+				var sl recSlot
+				src, isCall := c.Call.Args[0].(*ssa.Call)
+				okV := false
+				if isCall {
+					sl, okV = slotFromView(src, sizes)
+				}
+				if !okV {
+					L.unknown = "a record part is appended from something other than a getbytes view"
+					return
+				}
+				sl.instr = c
+				if prev != nil && !InstrDominates(prev, c) {
+					L.problems = append(L.problems, "record parts are not appended on every path in one order")
+				}
+				if InLoop(c) {
+					L.problems = append(L.problems, "a record part is appended in a loop")
+				}
+				prev = c
+				L.slots = append(L.slots, sl)
+			})
+			// the buffer as handed on: a load of the variable after the last append
+			for _, ref := range *cell.Referrers() {
+				if ld, ok := ref.(*ssa.UnOp); ok && ld.Op == token.MUL && prev != nil && InstrDominates(prev, ld) {
+					L.final = ld
+				}
+			}
+			// nothing else writes the variable
+			for _, ref := range *cell.Referrers() {
+				if st, ok := ref.(*ssa.Store); ok && st.Val != ssa.Value(mk) {
+					L.problems = append(L.problems, "the record variable is assigned outside the appending closure")
+				}
+			}
+			for i := range L.slots {
+				L.slots[i].orig = L.slots[i].val
+			}
+			if len(L.slots) == 0 && L.unknown == "" {
+				L.unknown = "the appending closure is never called"
+			}
+			return L
+		}
+	}
 	if mk == nil || isEmptyMake(mk) {
 		// form 1
 		if mk != nil {
@@ -981,6 +1138,9 @@ var c05RecSubst = map[ssa.Value]string{}
 
 // singleReturn: the one value returned by a function with exactly one return statement and one result.
 func singleReturn(f *ssa.Function) ssa.Value {
+	if f == nil || f.Blocks == nil {
+		return nil
+	}
 	var out ssa.Value
 	n := 0
 	Instrs(f, func(in ssa.Instruction) {
@@ -1215,7 +1375,7 @@ func c05R6(p *Prog, r *Report) {
 		r.Check(flagged, "C05.R6", owner+": header written once (guarded by the header-written flag)", p.InstrPos(e.header), "guarded", "the header write is not guarded by the writer's header-written flag: a second block rewrites the header in the middle of the file")
 		// every path to the record loop passes the header block or the flag says it was written: the if-region precedes the loop
 		l := LoopContaining(loops, rec)
-		okLoop := l != nil && ArgForParam(e.path, l.Over) == ssa.Value(pd.Params[1]) && l.EveryIteration(rec.Block())
+		okLoop := l != nil && resolveCell(ArgForParam(e.path, l.Over)) == ssa.Value(pd.Params[1]) && l.EveryIteration(rec.Block())
 		r.Check(okLoop, "C05.R6", owner+": every published record is written, in slice order", p.InstrPos(rec), "range over the records parameter, one WriteRecord per element", "WriteRecord is not executed for every element of the published slice in order")
 		if l != nil {
 			r.Check(!BlockReaches(l.Header, e.header.Block()), "C05.R6", owner+": header precedes the records", p.InstrPos(e.header), "the header block cannot be reached from the record loop", "the header can be written after records")
